@@ -107,7 +107,8 @@ theorem insertInto_wrapNest_inv (S : Schema) (mid : List Node) :
 theorem insertAt_wrapNest_inv (S : Schema) (mid : List Node) (as : List (TypeId × Attrs)) (insd : Slice)
     (h : Slice.insertAt S ⟨wrapNest as [], 0, 0⟩ as.length mid = .ok (some insd)) :
     insd = ⟨wrapNest as mid, 0, 0⟩ ∧ ∀ w, as.getLast? = some w → S.validContent w.1 mid = true := by
-  simp only [Slice.insertAt, Nat.add_zero] at h
+  rw [insertAt_of_le (insertAt_ok h).1] at h
+  simp only [Slice.insertAtIn, Nat.add_zero] at h
   cases hr : insertInto S mid none (wrapNest as []) as.length 0 (wrapNest as []) as.length 0 0 with
   | error e => simp [hr] at h
   | ok o =>
@@ -275,7 +276,8 @@ theorem nodeAtKids_lvl (tyN : TypeId) (aN : Attrs) (mN : Marks) (kN : List Node)
 theorem insertAt_single_inv (S : Schema) (ty : TypeId) (a : Attrs) (m : Marks) (k : List Node) (insd : Slice)
     (h : Slice.insertAt S ⟨[.elem ty a m []], 0, 0⟩ 1 k = .ok (some insd)) :
     insd = ⟨[.elem ty a m k], 0, 0⟩ ∧ S.validContent ty k = true := by
-  simp only [Slice.insertAt, Nat.add_zero] at h
+  rw [insertAt_of_le (insertAt_ok h).1] at h
+  simp only [Slice.insertAtIn, Nat.add_zero] at h
   unfold insertInto at h
   rw [if_neg (by omega), if_neg (by simp)] at h
   simp only [Nat.lt_irrefl, decide_false, Bool.false_and, Bool.or_self, Bool.false_eq_true, if_false,
